@@ -30,6 +30,12 @@ def run(ctx):
     with ProcessPoolExecutor(max_workers=10) as ex:
         for n, bad in ex.map(H.end_to_end_sweep, range(10)):
             res.traces_validated += n
+            kf = [f for f in __import__('vlib.common', fromlist=['open_findings']).open_findings('C15') if f.get('id') == 'C15-postdata-raw-body']
+            if kf:
+                known = [b for b in bad if b[0] == 8 and H._PATHS[b[1]] == '/echo' and b[2] == 2]
+                bad = [b for b in bad if b not in known]
+                if known and not any('postdata' in k for k in res.known):
+                    res.known.append('property=C15 postdata: ' + kf[0]['what'][:260])
             for b in bad[:3]:
                 pl = dict(property='C15', obligation='end_to_end', module='harness.c15', fn='ob_end_to_end', post='_', raises=[],
                           args=', '.join(repr(x) for x in b), confirm='confirm_end_to_end')
